@@ -40,11 +40,11 @@ var spxProps = map[string][]string{
 	"C06": {"S4", "S10"},
 	"C10": {"S3", "S4", "S13"},
 	"C17": {"S1", "S2", "S3", "S4", "S9", "S10", "S13", "S14", "S16"},
-	"C18": {"S1", "S6"},
+	"C18": {"S1", "S6", "S12"},
 	"C02": {"S5", "S8"},
 	"C07": {"S8"},
 	"C11": {"S7", "S15"},
-	"C12": {"S5", "S6", "S7", "S8", "S11", "S15"},
+	"C12": {"S5", "S6", "S7", "S8", "S11", "S12", "S15"},
 }
 
 func spxScenarioFor(name string) *spxScenario {
@@ -671,6 +671,36 @@ func spxClientRules(x *spxInst, sc *spxScenario, prop string, add func(rule, sha
 			}
 		}
 	case "C18":
+		if short == "S12" {
+			// MAX_CONCURRENT_STREAMS=1 on every connection: a second stream may only be opened
+			// once the answer that closed the first had been injected
+			for ci, sc := range h.Conns {
+				mark := 0
+				if ci == 0 {
+					mark = x.mark
+				}
+				off := 0
+				opened := 0
+				for _, f := range sc.Out[mark:] {
+					start := off
+					off += 9 + len(f.Payload)
+					if f.Type != peer.THeaders {
+						continue
+					}
+					opened++
+					closedBy := 0
+					for _, st := range x.steps("inject") {
+						if st.Ran && st.Conn == ci && st.WaitHeaders > 0 && st.OutAt <= start {
+							closedBy++
+						}
+					}
+					if opened-closedBy > 1 {
+						add("streams-above-peer-max-concurrent", "", fmt.Sprintf("connection %d: stream %d opened at offset %d while %d earlier streams of the phase were still unanswered (MAX_CONCURRENT_STREAMS=1)", ci, f.Stream, start, opened-1-closedBy))
+					}
+				}
+			}
+			break
+		}
 		// S6: SETTINGS(table=0, window, streams=10) between two requests: one ACK, next request block signals the reduction
 		acks, ackAt := 0, -1
 		for i, f := range phase {
